@@ -15,7 +15,7 @@ func init() {
 				gen.Seq(gen.Lit("1.", "1-"), gen.Lit("18446744073709551616", "18446744073709551617", "0000000000000000000000001", "99999999999999999999", "100000000000000000000", "18446744073709551615", "2", "02")),
 			)
 			m := gen.Magnitudes
-			g = gen.Alt(g, gen.Seq(gen.Lit("1.", "1-", "1a", "1:1.", "1~", "1+"), m), gen.Seq(m, gen.Lit(":1", "", "-1", ".1", "a")))
+			g = gen.Alt(g, gen.Seq(gen.Lit("1.", "1-", "1a", "1:1.", "1~", "1+"), m), gen.Seq(m, gen.Lit(":1", "", "-1", ".1", "a")), gen.Seq(gen.Lit("1.", "1-", "1a", "1~"), gen.LeadingZeros), gen.Seq(gen.Lit("1.", "1-"), gen.Lit("7", "8", "9", "10", "11")))
 			return g
 		},
 		Valid: ref.DebianValid,
